@@ -236,9 +236,25 @@ Theorem serve_recent_is_latest : forall acts s tr b, wrun ws0 acts = Some (s, tr
 Proof. exact serve_recent_is_latest_all. Qed.
 Print Assumptions serve_recent_is_latest.
 
-(* "a change during a build triggers exactly one more build": at least one -
-   a change is never missed ... *)
-Theorem watch_change_is_noticed : forall s, w_wpc s = WSleep -> w_disposed s = false -> w_client s = CNone ->
+(* Watch's goroutine starts the first watch-mode build only when no build is
+   in flight - "the first watch build starts after the builds in flight at the
+   call have ended" - and that build is begun with watch mode on ... *)
+Theorem first_watch_build_after_inflight : forall s s' l, wexec s XFirstStart = Some (s', l) ->
+  w_client s = CNone /\ w_client s' = CStarted (w_nb s) true /\ w_first s' = false.
+Proof. exact first_build_after_inflight. Qed.
+Print Assumptions first_watch_build_after_inflight.
+
+(* ... so that, once it is over, the watcher has paths to poll *)
+Theorem watch_data_after_first_build : forall acts s tr, wrun ws0 acts = Some (s, tr) ->
+  watching (w_wpc s) = true -> w_first s = false -> w_client s = CNone -> w_hasData s = true.
+Proof. exact WatchProofs.watch_data_after_first_build. Qed.
+Print Assumptions watch_data_after_first_build.
+
+(* "a change during a build triggers exactly one more build": at least one - a
+   change is never missed once the first watch-mode build is over (this rests
+   on the two theorems above: a watcher without recorded data polls nothing) *)
+Theorem watch_change_is_noticed : forall acts s tr, wrun ws0 acts = Some (s, tr) ->
+  w_wpc s = WSleep -> w_disposed s = false -> w_client s = CNone -> w_first s = false ->
   (w_watched s < w_edits s)%nat -> exists s', wexec s XWatcher = Some (s', WBuild (w_nb s)).
 Proof. exact change_is_noticed. Qed.
 Print Assumptions watch_change_is_noticed.
